@@ -81,11 +81,12 @@ type task struct {
 	panicV  interface{}
 	panicS  string
 	prio    int // PCT
+	spawned bool // started by a go statement inside a task; PCT priority drawn by the controller when first seen
 
-	// channel rendezvous through the scheduler (chansim.go)
-	mail      interface{}
-	hasMail   bool
-	mailTaken bool
+	// channel operations through the scheduler (chansim.go)
+	cw           *chanWait
+	parkedInChan bool
+	syncA, syncB byte // addresses for the race detector's rendezvous edges
 }
 
 // Step is one scheduling decision: which task ran, from which yield site.
@@ -115,6 +116,9 @@ type Sim struct {
 	Steps       int
 	Switches    int
 	Contentions int
+	Spawned     int // tasks started by go statements inside tasks
+	Leaked      int // spawned tasks still parked when every caller task had returned
+	timerPolls  int
 	Sig         uint64
 	Trace       []Step
 	Aborted     bool
@@ -141,6 +145,20 @@ type Deadlock struct {
 }
 
 func (d *Deadlock) Error() string { return fmt.Sprintf("deadlock: blocked tasks %v", d.Blocked) }
+
+// Inconclusive is returned by Run when it cannot tell a deadlock from a wait
+// for something the simulator does not own (real timers).
+type Inconclusive struct {
+	Why     string
+	Blocked []string
+}
+
+func (d *Inconclusive) Error() string { return fmt.Sprintf("inconclusive: %s: %v", d.Why, d.Blocked) }
+
+// TimerSites is the number of timer-creating calls (time.After, NewTimer,
+// NewTicker, AfterFunc, Tick) the instrumenter counted in the code under test;
+// set by the harness from the instrumentation report.
+var TimerSites int
 
 // StepLimit is returned by Run when the step budget is exhausted.
 type StepLimit struct{ Steps int }
@@ -181,6 +199,29 @@ func (s *Sim) Go(name string, fn func()) {
 
 //go:norace
 func (s *Sim) NumTasks() int { return len(s.tasks) }
+
+// Spawn replaces a `go` statement in instrumented code (rule R6): inside a
+// simulated run the new goroutine becomes a task of the scheduler (it runs only
+// when picked), outside it is a plain goroutine. The real `go` statement below
+// gives the race detector the fork edge parent -> child that Go guarantees;
+// nothing orders the child's end with anything (as in Go).
+//
+//go:norace
+func Spawn(fn func(), site string) {
+	t := cur
+	if t == nil || t.abort {
+		go fn()
+		return
+	}
+	s := active
+	nt := &task{id: len(s.tasks), name: fmt.Sprintf("%s>go%d@%s", t.name, len(s.tasks), site), fn: fn,
+		wake: make(chan struct{}), site: "start", spawned: true}
+	s.tasks = append(s.tasks, nt)
+	s.Spawned++
+	s.wg.Add(1)
+	go s.taskMain(nt)
+	handOff(t, site)
+}
 
 type abortSentinel struct{}
 
@@ -444,6 +485,11 @@ func (s *Sim) pick(rs []*task) *task {
 				s.tasks[s.last].prio = min - 1
 			}
 		}
+		for _, t := range rs {
+			if t.spawned && t.prio == 0 {
+				t.prio = 1 + s.ch.Pick(len(s.tasks)+1)
+			}
+		}
 		best := rs[0]
 		for _, t := range rs[1:] {
 			if t.prio > best.prio {
@@ -554,13 +600,41 @@ func (s *Sim) Run() error {
 		rs := s.runnable(buf)
 		if len(rs) == 0 {
 			var bl []string
+			rootBlocked, chanBlocked := false, false
 			for _, t := range s.tasks {
 				if !t.done {
 					bl = append(bl, fmt.Sprintf("%s@%s", t.name, t.site))
+					if !t.spawned {
+						rootBlocked = true
+					}
+					if t.parkedInChan {
+						chanBlocked = true
+					}
 				}
 			}
 			if len(bl) > 0 {
-				err = &Deadlock{Blocked: bl}
+				switch {
+				case !rootBlocked:
+					// only goroutines started by the code under test are still parked and every
+					// caller has returned: in Go that is a leaked goroutine, not a deadlock
+					s.Leaked += len(bl)
+				case chanBlocked && TimerSites > 0:
+					// the code under test creates timers (real time, not simulated): a channel wait
+					// may be served by one. Poll in real time, then give up without a verdict.
+					if s.timerPolls < 3000 {
+						s.timerPolls++
+						time.Sleep(time.Millisecond)
+						for _, t := range s.tasks {
+							if !t.done && t.parkedInChan {
+								t.blocked = nil
+							}
+						}
+						continue
+					}
+					err = &Inconclusive{Why: "blocked on channels while the code under test uses real timers", Blocked: bl}
+				default:
+					err = &Deadlock{Blocked: bl}
+				}
 				s.abortAll()
 			}
 			break
@@ -598,6 +672,7 @@ func endRun() {
 	active = nil
 	cur = nil
 	resetSyncSim()
+	resetChanSim()
 	pendingW = nil
 }
 
